@@ -140,6 +140,18 @@ theorem C08_ticks_bound_LaunchDigest_const (o : Opts) (fw : Bytes) :
     launchDigestTicks genCfg o fw ≤ fw.length / 2 + 4 + 2 * o.vcpus.toNat + (2 ^ 21 - 2) :=
   SnpConst.launchDigestTicks_le_const genCfg o fw
 
+/-- A product without a known address width costs nothing: the refusal (the product-check fix) precedes every loop — no GUID
+    walk, no page is hashed — so the bounds above hold for every product value, trivially for these. -/
+theorem C08_ticks_unsupported_product (o : Opts) (hp : o.product ≠ 1 ∧ o.product ≠ 2) (fw : Bytes) :
+    launchDigestTicks genCfg o fw = 0 ∧ launchDigestAlloc genCfg o fw = 8192 + 4112 * o.vcpus.toNat := by
+  have hs := SnpExample.genSupported_false o.product hp
+  have ht : launchDigestTicks genCfg o fw = 0 := by
+    unfold launchDigestTicks
+    split
+    · rfl
+    · simp [hs]
+  exact ⟨ht, by unfold launchDigestAlloc; rw [ht]⟩
+
 /-- allocation account likewise: linear part plus at most 128 bytes for each of the 2^21 − 2 pages (256 MiB
     of short-lived PAGE_INFO buffers in total, never live at once) -/
 theorem C08_alloc_bound_LaunchDigest_const (o : Opts) (fw : Bytes) :
@@ -187,6 +199,8 @@ theorem C08_ticks_bound_UnsignedSnp (launchVmsas product : Nat) (fw : Bytes) :
 example : walkStep (Codecs.zeros 16 ++ [18, 0]).reverse.reverse 18 [] ≠ .err "x" := by decide
 example : (vmsaCounts Gen.SevLayout.VmsaCounts 0).sum = 1079 := by decide
 example : SnpBounds.declaredPages [⟨0, 0xFFFFD000, 1⟩] = 1048574 := by decide
+-- Turin (3) on the example image: refused before any loop; Milan on the same image runs the loops
+example : launchDigestTicks genCfg ⟨4, 3⟩ SevExample.exFw = 0 := (C08_ticks_unsupported_product ⟨4, 3⟩ (by decide) _).1
 -- the hypotheses of `C08_declared_pages_bound` are inhabited: the kernel-evaluated example image of C04 (12 pages)
 example : SnpBounds.declaredPagesOf SevExample.exFw = 12 + 4 := by
   have h := C08_declared_pages_bound _ _ _ SnpExample.ex_parse
